@@ -166,7 +166,10 @@ PROPS["C06"] = dict(
 PROPS["C07"] = dict(
     producers=[("pyvc.table_check", "call_items")],
     level="exploration",
-    technique="bounded: chunked == whole-raster over random chunkings; contract-level obligations only for the halo / fallback arithmetic of _process_dask (normalised-source checks)",
+    technique="bounded: chunked == whole-raster over random chunkings.  Contract-level obligations: halo / fallback arithmetic and the map_overlap call of _process_dask, "
+              "chunk-aligned coordinate grids and the shared block function in _process (normalised-source checks), halo-width lemma (a target k cells away with "
+              "k*cellsize <= max_distance lies inside int(max_distance/cellsize + 0.5) cells).  What the block function does on any block is the C06 glue contract: "
+              "every non-NaN output of a chunk names an actual target of its padded block",
     not_decided=["that the sweep heuristic on a padded block reproduces the whole-raster result is a relational fact about an approximate algorithm; no contract within reach expresses it - bounded only"],
     assumptions=["Dask map_overlap contract as in C01"],
     trusted_base=[],
